@@ -719,8 +719,16 @@ func (env *Env) callExpr(n *ast.CallExpr) Val {
 				}
 			}
 			b = env.typed(b, a.GoType())
-			as, bs := a.(Scalar), b.(Scalar)
-			return Scalar{Ite(c, as.T, bs.T), as.Ty}
+			if as, ok := a.(Scalar); ok {
+				if bs, ok := b.(Scalar); ok {
+					return Scalar{Ite(c, as.T, bs.T), as.Ty}
+				}
+			}
+			a, b = adoptNilShape(a, b)
+			if staticShape(a) != staticShape(b) {
+				env.fail("ite branches have different shapes")
+			}
+			return mapVal2(a, b, func(x, y Term) Term { return Ite(c, x, y) })
 		case "min", "max":
 			a, b := env.eval(n.Args[0]), env.eval(n.Args[1])
 			if _, ok := a.(ConstV); ok {
